@@ -41,6 +41,7 @@ fn streams() -> Vec<(&'static str, GenFn, EvalFn)> {
         ("intervals", s_intervals::gen, s_intervals::eval),
         ("dtype", s_dtype::gen, s_dtype::eval),
         ("hier", s_hier::gen_hier, s_hier::eval_hier),
+        ("hierops", s_hier::gen_hierops, s_hier::eval_hierops),
         ("scope", s_hier::gen_scope, s_hier::eval_scope),
         ("rules", s_rules::gen, s_rules::eval),
         ("sdpartial", s_rules::gen_sdpartial, s_rules::eval_sdpartial),
